@@ -21,6 +21,7 @@ import (
 	"encoding/binary"
 	"fmt"
 	"sort"
+	"sync"
 
 	"github.com/lindb/roaring"
 
@@ -69,6 +70,8 @@ type metricReader struct {
 	seriesBucket     []byte
 	fields           field.Metas
 	readFieldIndexes []int
+	prepareOnce      sync.Once
+	foundFields      bool
 	crc32CheckSum    uint32
 	timeRange        timeutil.SlotRange
 }
@@ -106,21 +109,26 @@ func (r *metricReader) GetTimeRange() timeutil.SlotRange {
 }
 
 // prepare the field aggregator based on query condition.
+// NOTE: a reader serves one query, but the data load tasks of all series containers of that query
+// call Load(=>prepare) concurrently while other tasks already read readFieldIndexes: build it once.
 func (r *metricReader) prepare(fields field.Metas) (found bool) {
-	fieldMap := make(map[field.ID]int)
-	for idx, fieldMeta := range r.fields {
-		fieldMap[fieldMeta.ID] = idx
-	}
-	r.readFieldIndexes = make([]int, len(fields))
-	for idx, f := range fields { // sort by field ids
-		if fieldIdx, ok := fieldMap[f.ID]; ok {
-			r.readFieldIndexes[idx] = fieldIdx
-			found = true
-		} else {
-			r.readFieldIndexes[idx] = fieldNotFound
+	r.prepareOnce.Do(func() {
+		fieldMap := make(map[field.ID]int)
+		for idx, fieldMeta := range r.fields {
+			fieldMap[fieldMeta.ID] = idx
 		}
-	}
-	return
+		readFieldIndexes := make([]int, len(fields))
+		for idx, f := range fields { // sort by field ids
+			if fieldIdx, ok := fieldMap[f.ID]; ok {
+				readFieldIndexes[idx] = fieldIdx
+				r.foundFields = true
+			} else {
+				readFieldIndexes[idx] = fieldNotFound
+			}
+		}
+		r.readFieldIndexes = readFieldIndexes
+	})
+	return r.foundFields
 }
 
 // Load loads the data from sst file, then returns the file metric scanner.
